@@ -146,6 +146,16 @@ def run(ctx):
     for _ in range(nsteps):
         k = ch.weighted([8, 3, 2, 1, 2, 2, 0 if large else 1, 1 if use_meta else 0], "step")
         ctx.steps += 1
+        if ch.coin(1, 60, "fork-the-builder"):
+            # the client forks the circuit under construction (copy.deepcopy) and goes on with the copy; wires are values
+            # (node index, offset), so the ones it holds denote the same wires in the copy
+            import copy
+            t = copy.deepcopy(t)
+            p = copy.deepcopy(p)
+            ctx.ev(0, "fork (deepcopy), continue on the copy")
+            ctx.probe("continued_on_a_deep_copy")
+            check_tracked("fork")
+            check_hugrs("fork")
         if k == 7:
             # a client annotates one node after the fact, the same way in both HUGRs: it shows on that node only
             from hugr.hugr.node_port import Node as _N
@@ -285,8 +295,14 @@ def run(ctx):
             else:
                 cands = sorted(wires)
                 keys = [ch.pick(cands, "tw") for _ in range(ch.draw(3, "ntw"))] if cands else []
-                ret = t.track_wires([twires[k2] for k2 in keys])
-                ctx.ev(0, "track_wires", [list(k2) for k2 in keys], ret)
+                form = ch.draw(4, "iterable-form")
+                ws = [twires[k2] for k2 in keys]
+                # track_wires takes any iterable of wires: a list, a tuple, a one-shot iterator, a generator
+                arg = [ws, tuple(ws), iter(ws), (w for w in ws)][form]
+                ret = t.track_wires(arg)
+                ctx.ev(0, "track_wires", [["list", "tuple", "iterator", "generator"][form], [list(k2) for k2 in keys]], ret)
+                if form >= 2:
+                    ctx.probe("wires_given_as_one_shot_iterator")
             exp = list(range(len(model), len(model) + len(keys)))
             for k2 in keys:
                 model.append((k2, wires[k2][1]))
